@@ -83,6 +83,23 @@ def accepts_all_sizes(rep, f, facts, name):
         guarded = any(z == N or (isinstance(z, tuple) and len(z) == 3 and z[0] == "attr" and z[2] == "size") or (isinstance(z, tuple) and len(z) == 4 and z[0] == "ext" and z[1] == "len")
                       for cnd, _ in c.path for z in walk(cnd))
         if sized_by_n and not guarded:
+            # `n > 0 and x.max() >= hi`: the right operand of `and` is evaluated only when the left one holds
+            def mentions_size(t_):
+                return any(z == N or (isinstance(z, tuple) and len(z) == 3 and z[0] == "attr" and z[2] == "size") or (isinstance(z, tuple) and len(z) == 4 and z[0] == "ext" and z[1] == "len") for z in walk(t_))
+
+            def is_this(t_):
+                return isinstance(t_, tuple) and ((c.callkind == "method" and len(t_) >= 4 and t_[0] == "method" and t_[1] == operand and t_[2] == nm) or
+                                                  (c.callkind == "ext" and len(t_) >= 4 and t_[0] == "ext" and t_[1] == c.target and t_[2] and t_[2][0] == operand))
+            pool = [cnd for x in facts for cnd, _ in x.path] + [getattr(x, "term", None) for x in facts] + [getattr(x, "value", None) for x in facts]
+            for t0 in pool:
+                if t0 is None or guarded:
+                    continue
+                for y in walk(t0):
+                    if isinstance(y, tuple) and len(y) == 3 and y[0] == "bool" and y[1] == "and":
+                        for k_, operand_ in enumerate(y[2]):
+                            if any(is_this(z) for z in walk(operand_)) and any(mentions_size(e_) for e_ in y[2][:k_]):
+                                guarded = True
+        if sized_by_n and not guarded:
             bad = (c, "takes %s of the draw without testing its size: for n = 0 numpy raises ValueError (zero-size array to reduction operation)" % nm)
     if bad is not None:
         rep.bad("SIZE.accepts", fwhere(f, bad[0].node), "%s's callable %s" % (name, bad[1]))
